@@ -973,13 +973,19 @@ def classifies_exception(ck):
     try:
         pairs = repo_subclass_pairs(ck)
         D = dispatch_model(ck, FA(ck, fo), pairs)
-        if D is None or "MementoException" not in D.named():
+        if D is None or len(D.named()) < 5:
+            # from_object is written in a way the dispatch model cannot follow: that is reported by the rule that reads its
+            # order (an analysis error, R2); the runner rules proceed on the reference behaviour instead of deriving
+            # violations of their own from a fact nobody could establish
+            memo["v"] = True
+            return True
+        if "MementoException" not in D.named():
             return False
         classes = ["MementoException"] + sorted({sub for (sub, sup) in pairs if sup == "MementoException"})
         want = frozenset({("return", "ResultType.exception")})
         memo["v"] = all(D.outcome((k, kind, "actual")) == want for k in classes for kind in ("exact", "sub"))
     except (AnalysisError, _Unsupported):
-        memo["v"] = False
+        memo["v"] = True    # (as above: not analysable is reported where from_object itself is checked)
     return memo["v"]
 
 
@@ -1259,6 +1265,9 @@ def check_replay(ck, R):
         e = _parse(v)
         if isinstance(e, ast.Call) and A.call_attr(e) == "ExistingMementoResult" and not any(isinstance(x, ast.Starred) for x in e.args):
             fr, fv = A.arg_or_kw(e, 0, fields[0]), A.arg_or_kw(e, 1, fields[1])
+            # (`valid_result=not tripped` with the flag known on the path: the constant it stands for)
+            if isinstance(fv, ast.UnaryOp) and isinstance(fv.op, ast.Not) and isinstance(fv.operand, ast.Constant) and isinstance(fv.operand.value, bool):
+                fv = ast.Constant(value=not fv.operand.value)
             outs.append((r, lits, A.norm(fr) if fr is not None else None, A.norm(fv) if fv is not None else None))
         else:
             outs.append((r, lits, None, None))
